@@ -189,7 +189,18 @@ func (cc *clientCxn) onWaitForCommand() {
 	if length == 0 {
 		cc.mu.Lock()
 		cc.waiting = true
+		closing := cc.closing
 		cc.mu.Unlock()
+
+		if closing {
+			// the close request came in after the loop's check and found the connection not yet
+			// waiting, so it did not close the socket: don't start a read nobody would interrupt
+			// (the terminate event is already queued)
+			cc.mu.Lock()
+			cc.waiting = false
+			cc.mu.Unlock()
+			return
+		}
 
 		n, err := cc.cxn.Read(buffer)
 
